@@ -222,6 +222,8 @@ def rt_case(draw):
         # streams whose COMPRESSED size passes half a megabyte / a megabyte (incompressible input of that size)
         chunks = chunks[:2] + [[draw(st.sampled_from([300000, 524288, 600000, 1200000])), 'rand', draw(st.integers(0, 999))] for _ in range(draw(st.integers(2, 3)))]
     if big and draw(st.integers(0, 5)) == 0:
+        chunks = [[262144, 'zero', 0]] * draw(st.integers(3, 5))      # identical pages: the compressor emits identical items in a row
+    if big and draw(st.integers(0, 5)) == 0:
         chunks = chunks[:2] + [[5000000, 'zero', 0]]      # a few KB of compressed bytes that expand to 5 MB
     return {'codec': draw(st.sampled_from(['gzip', 'zstd'])), 'chunks': chunks, 'cuts': sorted(cuts),
             'input': draw(st.sampled_from(['bytes', 'bytes', 'bytearray', 'memoryview', 'nested', 'subclass']))}
